@@ -48,6 +48,12 @@ pub fn battery<Ty: EdgeType, Ix: IndexType>(g: &Sg<Ty, Ix>) -> Vec<String> {
     if !crate::enc::rev_ok(g.node_indices()) || !crate::enc::rev_ok(g.edge_indices()) || !crate::enc::rev_ok(g.node_references())
         || !crate::enc::rev_ok(g.edge_references()) { v.push("back-iteration-mismatch".into()); }
     if g.node_indices().any(|i| Some(&g[i]) != g.node_weight(i)) || g.edge_indices().any(|e| Some(&g[e]) != g.edge_weight(e)) { v.push("index-operator-mismatch".into()); }
+    {   // the visit traits answer like the inherent methods; a visit map reset for this graph has room for every index below node_bound
+        use petgraph::visit::{EdgeCount, NodeCount, Visitable};
+        let mut m = fixedbitset::FixedBitSet::default(); g.reset_map(&mut m);
+        if NodeCount::node_count(g) != g.node_count() || EdgeCount::edge_count(g) != g.edge_count()
+            || m.len() < g.node_bound() || g.visit_map().len() < g.node_bound() { v.push("visit-trait-mismatch".into()); }
+    }
     v
 }
 
